@@ -873,7 +873,8 @@ chk.finish(
           "(every combination of kind / transmission-reflection / reflection_against / normal-side flags), "
           "Path.reverse (all configuration paths and random paths, with random Rays); distinct = distinct inputs"),
     samples=samples,
-    extra={"exhaustive": "configurations, interface attribute combinations (thorough tier) and the 14 path names are "
+    extra={"exhaustive": False,
+           "exhaustive_parts": "configurations, interface attribute combinations (thorough tier) and the 14 path names are "
                          "covered exhaustively; name subsets, sub-dictionaries, rays and arbitrary paths are sampled"},
     assumptions=["points, orientations and materials are opaque: only their identity is modelled"],
 )
